@@ -586,7 +586,22 @@ theorem object_key_total (aes : Bool) (keySize keyLen : Nat) (h : min keySize 16
     which passes `% 8` and every revision check — slices 17 bytes out of the 16 byte digest. -/
 theorem keyUnclamped_panics : keySchedule false 3 136 true = .panic ∧ keySchedule false 4 256 false = .panic := by decide
 example : keySchedule true 3 136 true = .ok () ∧ keySchedule true 4 256 false = .err ∧ keySchedule true 2 136 true = .ok () := by decide
+example : keySchedule true 3 256 true = .ok () ∧ keySchedule true 3 264 true = .err ∧ keySchedule true 4 2147483640 true = .err := by decide
 example : keySchedule true 3 0 true = .err ∧ keySchedule true 3 7 true = .err ∧ keySchedule true 3 8 false = .ok () := by decide
+
+/-- **Memory in proportion**: whatever /Length says, the key buffers of `from_password` take at most 64
+    bytes; before the repair `/Length 2147483640` asked for two buffers of 268 MB. -/
+theorem key_buffer_bounded (keyBits : Nat) : keyBufferBytes true keyBits ≤ 64 := by
+  unfold keyBufferBytes
+  simp only []
+  split
+  · omega
+  · split
+    · omega
+    · rename_i h1 h2
+      simp only [Bool.true_and, decide_eq_true_eq] at h2
+      omega
+theorem keyBufferOld_unbounded : keyBufferBytes false 2147483640 = 536870910 := by decide
 
 /-- the crypt filter's key length: any number of bytes -/
 theorem cf_key_bits_total (n : Nat) : cfKeyBits true n ≠ .panic ∧ cfKeyBits true n ≠ .oof := by
